@@ -164,6 +164,11 @@ def run(ctx):
                   'tracking and kernel installation happen only after the policy lookup succeeded (and use its result)',
                   key=('R1', 'lookup-dominates'), site=ctx.site(rq, lk.node))
 
+    # the selectors that are narrowed are the ones the peer sent: the decoder hands every field of a received selector on unchanged
+    # (a decoder that widens or rewrites ports, protocol or addresses makes the containment tests decide about something else)
+    from .c05 import check_ts
+    check_ts(ctx, 'R1', 'R1')
+
     # ---------------------------------------------------------------- R2
     rs = ctx.func(IKESA + '._process_create_child_sa_negotiation_res')
     S = ctx.sval(rs)
